@@ -298,3 +298,4 @@ def run_case(cfg):
 
 # (appended: sub-lattices added after the seeded waves; kept out of the original RULE text for readability)
 RULE = RULE + "; plus: two 'ladder' patterns (per-channel magnitudes 2^e, |e| in {12..15, 26, 30}); exponent bounds that do not bind; histories over the process-wide image data format (quantizer used under channels_first; and after switching back)"
+RULE = RULE + '; stochastic_binary / stochastic_ternary in the inference phase'
